@@ -816,7 +816,8 @@ where
         let mut calculated_time_us: u64 = if m.is_ctrl_request() {
             m.reception_time_us
         } else {
-            get_lc_start_time(m.lifecycle) + m.timestamp_us()
+            // saturating as a (e.g. merged) lifecycle can have a start_time of u64::MAX
+            get_lc_start_time(m.lifecycle).saturating_add(m.timestamp_us())
         };
         // assert!(calculated_time_us <= msg_reception_time_us, "m failed {:?} is_ctrl_request()={} calctime={} lc_start_time={}", m, m.is_ctrl_request(), calculated_time_us, get_lc_start_time(m.lifecycle));
         if calculated_time_us > msg_reception_time_us {
